@@ -6,6 +6,7 @@ TRUSTED_BASE = [
     "axioms allowed: propext, Classical.choice, Quot.sound (audited per theorem with #print axioms)",
     "harness/cmd/extract (go/ast fact extractor) and harness/cmd/qih (generators, canonicalisation, executors)",
     "Lean driver line-protocol parsing (lean/QiVerif/Driver)",
+    "harness/cmd/extract/locks.go and lockorder.go (translators: the skeletons they print are what the lock theorems are about; calls resolved by receiver type, else by name and arity within bus/; code outside bus/ assumed to take no mutex of bus/; calls through function values are not followed: pinned in Tie/LockOrder)",
     "Go runtime and standard library, goparsec, jennifer: modelled, not verified",
 ]
 
